@@ -55,6 +55,24 @@ func c03Run(trim bool) {
 	}
 	if c03Oracle(r) {
 		r.shutdown()
+		// "Slice and Size always equal the not-yet-evicted suffix": closing evicts nothing, and the
+		// snapshots taken so far (and scribbled over by snapshot) are the caller's own copies
+		for pass := 0; pass < 2 && !simrt.Failed(); pass++ {
+			a := r.snapshot(true)
+			if simrt.Failed() {
+				return
+			}
+			if a.n != s.n || r.b.Size() != s.n {
+				simrt.Failf("C03.size-slice", "after Close: len(Slice())=%d, Size()=%d, but the quiescent buffer held %d values before the Close", a.n, r.b.Size(), s.n)
+				return
+			}
+			for i, v := range a.vals {
+				if v != s.vals[i] {
+					simrt.Failf("C03.slice-content", "after Close (pass %d): Slice()[%d]=%v, it was %v before the Close and nothing has been evicted", pass, i, v, s.vals[i])
+					return
+				}
+			}
+		}
 	}
 }
 
